@@ -158,7 +158,8 @@ def run(ctx):
         if 'default' in base:
             rules[-1] = ('default', rng.choice([leaf(rng), ev.T, ev.F, ev.role('admin')]))
         texts = {n: ev.rule_text(t, rng) for n, t in rules}
-        policy_text = rng.choice([json.dumps(texts, indent=1), yaml.safe_dump(texts, default_flow_style=False)])
+        policy_text = rng.choice([json.dumps(texts, indent=1), json.dumps(texts, indent='\t'), json.dumps(texts, separators=(',\t', ':\t')),
+                                  yaml.safe_dump(texts, default_flow_style=False)])
         token = json.loads(json.dumps(rng.choice(fixtures))) if rng.random() < 0.3 else gen_token(rng, rng.choice(['project', 'project', 'domain', 'system', 'none', 'empty_project']))
         if 'catalog' in token and rng.random() < 0.8:
             token['catalog'] = token['catalog'][:1]
